@@ -29,6 +29,15 @@ def find_state_change_intervals(
             yield level + step, succ_value, level, value
             succ_value = value
 
+    # the levels between `last` and the lowest sampled level have not been examined yet
+    if head > last:
+        level = head - (head - last - 1) // step * step
+        value = get(last)
+        logger.debug('%s at level %s', value, last)
+
+        if not equals(value, succ_value):
+            yield level, succ_value, last, value
+
 
 def find_state_change(
     head: int,
